@@ -29,6 +29,8 @@ SKeys == {K("a"), <<"p", ".", "q">>, <<"u", ":", "v">>, <<"1">>}
 SD0 == {S("x")}
 SD1 == SD0 \cup MapsOver(SKeys, SD0, 2) \cup ArraysOver(SD0, 1)
 SepKeyRecs == {b \in Bodies(SKeys, SD1, 2) : Len(b) >= 1}
+\* the small space on which the laws about paths of formats are checked for every combination of formats
+PathRecs == {b \in Bodies(SKeys, SD1, 1) : Len(b) = 1}
 
 \* the domain of the property: keys non-empty and free of the separator (at every level) ...
 RECURSIVE KeysFree(_, _)
@@ -87,8 +89,8 @@ EndsReadable(path) == path[Len(path)] \in {"json", "jsonl"}
 Complete(path) == IF EndsReadable(path) THEN path ELSE Append(path, "jsonl")
 PathCase(path, sep, noun, s) == [path |-> Complete(path), sep |-> sep, noun |-> noun, s |-> s]
 Valid(c) == Carries(c.path[1], c.s) /\ InDomain(c.path, c.sep, c.noun, c.s)
-Pairs == {c \in {PathCase(<<a, b>>, sep, noun, s) : a \in Formats, b \in Formats, sep \in FlatSeps, noun \in BOOLEAN, s \in FlatStreams} : Valid(c)}
-Triples == {c \in {PathCase(<<a, m, b>>, sep, TRUE, s) : a \in Formats, m \in Formats, b \in Formats, sep \in {Dot}, s \in FlatStreams} : Valid(c)}
+PairsFrom(a) == {c \in {PathCase(<<a, b>>, sep, noun, s) : b \in Formats, sep \in FlatSeps, noun \in BOOLEAN, s \in FlatStreams} : Valid(c)}
+TriplesFrom(a) == {c \in {PathCase(<<a, m, b>>, sep, TRUE, s) : m \in Formats, b \in Formats, sep \in {Dot}, s \in FlatStreams} : Valid(c)}
 
 (* ---- probes of the flag table ----------------------------------------------------------------------------- *)
 Probe(kind) ==
